@@ -3,7 +3,8 @@
 (* C16: code -> spec.  Each trace is one history of REAL RenderArgs /       *)
 (* ArgsNamespace operations on a dynamically created class tree (up to 8    *)
 (* classes), recorded at the return of every public call:                   *)
-(*   ev.op    [op, a, b, cls, nss, kw]  (object ids = order of first sight)  *)
+(*   ev.op    [op, a, b, cls, nss, kw]  (object ids = order of first sight;   *)
+(*            a negative namespace operand -(16*set+cls) = set[cls] extracted) *)
 (*   ev.exc   class names along the MRO of the raised exception (<<>> none)  *)
 (*   ev.rid   id of the returned object (Len+1 = never seen before)          *)
 (*   ev.heap  observed [k, c, v] of EVERY live object after the call         *)
@@ -32,8 +33,10 @@ OpNames == {"NsNew", "NsUpdate", "New", "UpdateNs", "Update", "Convert", "Or", "
 
 WellTyped(h, op) ==
   LET ids == 1..Len(h)
-      ns(i) == i \in ids /\ h[i].k = "ns"
       ra(i) == i \in ids /\ h[i].k = "ra"
+      \* a heap namespace, or one extracted from a live set (see RenderArgs!At)
+      ns(i) == \/ i \in ids /\ h[i].k = "ns"
+               \/ i < 0 /\ ra(RefRa(i)) /\ RefK(i) \in AMRO(T, h[RefRa(i)].c)
       cl(c) == c \in 0..NCls(T)
   IN /\ op.op \in OpNames
      /\ \A i \in DOMAIN op.kw : Len(op.kw[i]) = 2 /\ op.kw[i][1] \in 1..3 /\ op.kw[i][2] \in {0, 1}
@@ -43,7 +46,7 @@ WellTyped(h, op) ==
           [] op.op = "New" -> cl(op.cls) /\ (op.a = 0 \/ ra(op.a))
           [] op.op = "UpdateNs" -> ra(op.a) /\ Len(op.nss) >= 1
           [] op.op \in {"Update", "Convert"} -> ra(op.a) /\ cl(op.cls)
-          [] op.op \in {"Or", "Ror"} -> ns(op.a) /\ op.b \in ids
+          [] op.op \in {"Or", "Ror"} -> ns(op.a) /\ (op.b \in ids \/ ns(op.b))
           [] op.op = "ToRenderArgs" -> ns(op.a) /\ (op.cls < 0 \/ cl(op.cls))
 
 Clause(h, ev) ==
